@@ -23,12 +23,13 @@ ASSUMPTIONS = ['maybe_placeholders=False, term_subs empty, no postlex, no templa
                'attributes of WriteTokensTransformer', 'C19_text holds under H_relex (joined text lexes back to the written '
                'tokens); H_relex is refuted in general (F12)']
 
-IMPORTS = 'From LV Require Import Base.Prelude Cfg.Grammar Recons.Recons Recons.ReconsCheck.'
+IMPORTS = 'From LV Require Import Base.Prelude Cfg.Grammar Recons.Recons Recons.ReconsCheck Recons.Text.'
 
 F12_KEY = 'F12:adjacent-tokens-relex'
-F13_KEY = 'F13:shared-alias-two-origins'
-F14_KEY = 'F14:alias-unit-rule-at-root'
-F15_KEY = 'F15:expand1-single-inlined-symbol'
+F13_KEY = 'C19-F13:shared-alias-two-origins'
+F14_KEY = 'C19-F14:alias-unit-rule-at-root'
+F15_KEY = 'C19-F15:expand1-single-inlined-symbol'
+F16_KEY = 'C19-F16:root-rule-used-inline'
 
 
 # ----------------------------------------------------------------------------------------------------
@@ -207,6 +208,32 @@ def class_extra(rules, lits):
                             seen.add(k[0][0])
                             todo.append(k[0][0])
         return seen
+    # F16 guard: a name whose root rules (rules_for_root) can be reached again below the root of its own match
+    nonterm = {o for o in byo if o.startswith('_') or o in exp1 or o in aliased}
+
+    def goes_to_root(a):
+        # mirror of _build_recons_rules: un-aliased alternative appended to rules_for_root[origin]
+        if a['alias'] is not None or a['origin'].startswith('_'):
+            return False
+        return (len(kept_syms(a)) != 1) if a['origin'] in exp1 else True
+
+    def inline_reach(x):
+        seen, todo = set(), [a for a in byo[x] if goes_to_root(a)]
+        while todo:
+            a = todo.pop()
+            for s in kept_syms(a):
+                if not s[1] and s[0] in nonterm and s[0] not in seen:
+                    seen.add(s[0])
+                    todo.extend(b for b in byo[s[0]] if b['alias'] is None and not goes_to_root(b))
+        return seen
+    for x in nonterm:
+        roots = [a for a in byo[x] if goes_to_root(a)]
+        if roots and x in inline_reach(x):
+            if x not in exp1:
+                return 'aliased origin reachable below the root of its own match'
+            if len({len(kept_syms(a)) for a in roots}) != 1 or \
+                    any((not s[1]) and s[0].startswith('_') for a in roots for s in kept_syms(a)):
+                return 'recursive ?rule whose un-aliased alternatives have varying child counts'
     for o in aliased - exp1:
         for a in byo[o]:
             if a['alias'] is None:
@@ -261,27 +288,39 @@ def c_stree(nm, t):
     raise ValueError('not a tree/token: %r' % (t,))
 
 
-def u_exp(u):
-    """expansion of a match node, read off its args"""
-    out = []
-    for a in u[3]:
-        if a[0] == 'U':
-            out.append((a[1], False))
-        else:
-            out.append((a[1][1], True))
-    return tuple(out)
+def preorder(t, out):
+    out.append(t)
+    if t[0] == 'n':
+        for c in t[2]:
+            preorder(c, out)
+    return out
 
 
-def c_utree(nm, u):
+def c_cutree(nm, u, kids, used):
+    """compact match tree: leaves by their index among the node's children (in order of appearance)"""
     if u[0] == 'L':
-        return '(ULeaf %s)' % c_stree(nm, u[1])
-    return '(UNode %s %s)' % (c_rrule(nm, (u[1], u_exp(u), u[2])), L([c_utree(nm, a) for a in u[3]]))
+        for i in range(used[0], len(kids)):
+            if kids[i] == u[1]:
+                used[0] = i + 1
+                return '(CL %d)' % i
+        return '(CLfull %s)' % c_stree(nm, u[1])
+    return '(CU %d %s %s)' % (nm(u[1]), L([c_sym(nm, s) for s in u[2]]), L([c_cutree(nm, a, kids, used) for a in u[3]]))
 
 
-def c_item(nm, it):
-    if it[0] == 's':
-        return '(WStr 0 %s)' % S(it[1])
-    return '(WChild %s)' % c_stree(nm, it[1])
+def c_citems(nm, items, kids):
+    out, pos = [], 0
+    for it in items:
+        if it[0] == 's':
+            out.append('(CS %s)' % S(it[1]))
+            continue
+        for i in range(pos, len(kids)):
+            if kids[i] == it[1]:
+                pos = i + 1
+                out.append('(CC %d)' % i)
+                break
+        else:
+            out.append('(CCfull %s)' % c_stree(nm, it[1]))
+    return L(out)
 
 
 def c_case(rules, lits, d_rules, d_rfr, in_class, need_sup, runs):
@@ -306,8 +345,13 @@ def c_case(rules, lits, d_rules, d_rfr, in_class, need_sup, runs):
     er = L([c_rrule(nm, r) for r in d_rules])
     runs_s = []
     for tree, ms, items, text in runs:
-        mss = L(['(%s, %s, %s)' % (c_stree(nm, m[0]), c_utree(nm, m[1]), L([c_item(nm, i) for i in m[2]])) for m in ms])
-        runs_s.append('(%s, %s, %s, %s)' % (c_stree(nm, tree), mss, L([S(x) for x in items]), S(text)))
+        subs = preorder(tree, [])
+        recs = []
+        for m in ms:
+            k = subs.index(m[0])      # first equal subtree: equal nodes are interchangeable for the lookup
+            kids = list(m[0][2])
+            recs.append('(%d, %s, %s)' % (k, c_cutree(nm, m[1], kids, [0]), c_citems(nm, m[2], kids)))
+        runs_s.append('(%s, %s, %s, %s)' % (c_stree(nm, tree), L(recs), L([S(x) for x in items]), S(text)))
     runs_t = L(runs_s)
     # names are complete now (trees only use rule/alias/terminal names, but be safe: number then emit)
     efr = L([L([c_rrule(nm, r) for r in d_rfr.get(n, [])]) for n in list(nm.lst)])
@@ -621,6 +665,14 @@ def build_case(ctx, rng, gtext, nsent, stream, wide=False, fixed_inputs=None, ki
             parsers[kind] = make_parser(gtext, kind)
         except Exception as e:   # noqa
             res.setdefault('errors', []).append('%s: %s' % (kind, type(e).__name__))
+        if parsers:
+            # the class predicates only need the compiled rules: decide before building the other engines
+            rules, lits = model_inputs(next(iter(parsers.values())))
+            coq_cls = class_coq(rules)
+            extra = class_extra(rules, lits)
+            if not wide and not (coq_cls and extra is None):
+                res['rejected'] = extra or 'class_b'
+                return res
     if not parsers:
         return res
     kind0 = 'lalr' if 'lalr' in parsers else 'earley'
@@ -629,9 +681,6 @@ def build_case(ctx, rng, gtext, nsent, stream, wide=False, fixed_inputs=None, ki
     coq_cls = class_coq(rules)
     extra = class_extra(rules, lits)
     in_class = coq_cls and extra is None
-    if not wide and not in_class:
-        res['rejected'] = extra or 'class_b'
-        return res
     try:
         pex = make_parser(gtext, 'earley', ambiguity='explicit')
     except Exception:   # noqa
@@ -680,6 +729,16 @@ def build_case(ctx, rng, gtext, nsent, stream, wide=False, fixed_inputs=None, ki
                 continue
         snap = snap_tree(tree)
         ms, items, text, exc = obs.run(tree)
+        if exc is None and pex is not None:
+            # the grammar must be unambiguous on the reconstructed text as well (else the class hypothesis fails)
+            try:
+                if has_ambig(pex.parse(text)):
+                    amb = True
+                    unamb = False
+                    if not wide:
+                        continue
+            except lark.exceptions.LarkError:
+                pass
         # the property's own oracle
         verdict = None
         if exc is not None:
@@ -729,6 +788,8 @@ EXOTIC = [
      'node o[al[x]] is matched by the alias unit rule o -> al at the root: parentheses and the o level are lost'),
     (F15_KEY, 'start: x\n?x: _l\n_l: A+\nA: "a"\n%ignore " "\n', 'a a a',
      '?x: _l with three children is not collapsed by the parser, but no tree-matching rule accepts Tree(x)'),
+    (F16_KEY, 'start: r\n?r: "%" r NUMBER+ "pr" | NAME\nNAME: /[a-z]+/\nNUMBER: /[0-9]+/\n%ignore " "\n', '% a 1 2 pr',
+     'the rules of rules_for_root[r] are also usable below the root: r[a,1,2] is matched as r[r[a,1],2] flattened'),
 ]
 
 
@@ -752,10 +813,36 @@ def roundtrip(gtext, text, kind='lalr'):
     return None
 
 
+def lex_case(gtext, texts):
+    """literal-only grammars: (literal table without the ignored blank, text, lark's basic-lexer tokens)"""
+    import lark
+    try:
+        p = make_parser(gtext, 'lalr', lexer='basic')
+    except Exception:   # noqa
+        return []
+    from lark.lexer import PatternStr
+    if not all(isinstance(t.pattern, PatternStr) for t in p.terminals):
+        return []
+    ign = set(p.ignore_tokens)
+    names = sorted(str(t.name) for t in p.terminals if t.name not in ign)
+    idx = {n: i for i, n in enumerate(names)}
+    tbl = L(['(%d, %s)' % (idx[str(t.name)], S(str(t.pattern.value))) for t in p.terminals if t.name not in ign])
+    out = []
+    for tx in texts:
+        try:
+            toks = [(str(t.type), str(t)) for t in p.lex(tx)]
+            exp = '(Some %s)' % L(['(%d, %s)' % (idx[a], S(b)) for a, b in toks])
+        except lark.exceptions.LarkError:
+            exp = 'None'
+        out.append('(%s, %s, %s)' % (tbl, S(tx), exp))
+    return out
+
+
 def correspond(ctx):
     rng = ctx.rng
-    n_class = ctx.scale(150, 1500) * (3 if ctx.widen else 1)
-    n_wide = ctx.scale(60, 600)
+    lex_cases = []
+    n_class = ctx.scale(110, 1500) * (3 if ctx.widen else 1)
+    n_wide = ctx.scale(40, 600)
     cases, metas = [], []
     rejected = {}
     tried = 0
@@ -776,6 +863,13 @@ def correspond(ctx):
         if r['case']:
             cases.append(r['case'])
             metas.append(r['meta'])
+        if 'NAME:' not in g and 'NUMBER:' not in g:
+            txs = [tx for tx, _ in r.get('inputs', [])]
+            for lc in lex_case(g, txs + [t.replace(' ', '') for t in txs]):
+                if len(lex_cases) >= ctx.scale(150, 3000):
+                    break
+                lex_cases.append(lc)
+                ctx.count('minilex', key=lc, nontrivial=True)
         if accepted <= 2:
             ctx.sample(dict(stream='class', family=fam, **r['meta'], results=r.get('inputs')))
     ctx.extra['class_generator'] = dict(tried=tried, accepted=accepted, rejected=rejected)
@@ -803,8 +897,18 @@ def correspond(ctx):
         if r['ok'] and r['case']:
             cases.append(r['case'])
             metas.append(r['meta'])
-    # F12 at the level of the mini-lexer model: the written tokens of "+ +" joined by the spacing rule relex differently
-    bad, errs = ctx.coq_bad_indices('c19', IMPORTS, 'check_case', cases, chunk=ctx.scale(12, 40))
+    # the mini-lexer model used by H_relex_refuted against lark's basic lexer (literal-only grammars and F12)
+    for lc in lex_case(EXOTIC[0][1], ['+ +', '++', '+++', '+ ++ +']):
+        lex_cases.append(lc)
+        ctx.count('minilex', key=lc, nontrivial=True)
+    badl, errl = ctx.coq_bad_indices('c19lex', IMPORTS, 'check_lex', lex_cases, chunk=200)
+    for e in errl:
+        ctx.violation('correspondence:coq-eval', {'error': e}, False, e[:300])
+    for i in badl:
+        ctx.violation('correspondence:Recons/Text.minilex vs lark BasicLexer (string terminals)',
+                      dict(no_longer_checks='mini-lexer model agreement', case=lex_cases[i][:600]), False,
+                      'the literal-only lexer model and lark.lex disagree')
+    bad, errs = ctx.coq_bad_indices('c19', IMPORTS, 'check_case', cases, chunk=ctx.scale(40, 60))
     for e in errs:
         ctx.violation('correspondence:coq-eval', {'error': e}, False, e[:300])
     for i in bad:
